@@ -3,7 +3,8 @@
 From Coq Require Import ZArith List Bool Arith.
 From SP Require Import Model.Num Model.Arrow Model.Measures Model.Orient
   Proofs.BoundsProofs Spec.MeasuresSpec Proofs.MeasuresProofs Proofs.MeasuresMapProofs
-  Proofs.MeasuresArrayProofs Spec.OrientSpec Proofs.OrientProofs Proofs.OrientArrayProofs.
+  Proofs.MeasuresArrayProofs Spec.OrientSpec Proofs.OrientProofs Proofs.OrientArrayProofs
+  Model.PointKernels Proofs.OrientWindingProofs.
 Import ListNotations.
 Local Open Scope nat_scope.
 
@@ -48,6 +49,20 @@ Theorem C15_structure_multipolygon : forall a o0 o1 o2,
   wf_listarr b = true.
 Proof. exact OrientArrayProofs.multipolygon_oriented_structure. Qed.
 Print Assumptions C15_structure_multipolygon.
+
+(* every element keeps its rings (parts and ring counts follow from the preserved
+   offsets), each ring the same or exactly reversed *)
+Theorem C15_elements_polygon : forall a o0 o1,
+  la_offs a = [o0; o1] -> wf_listarr a = true ->
+  forall i, Forall2 same_or_rev (elem_rings (polygon_oriented a) i) (elem_rings a i).
+Proof. exact OrientArrayProofs.polygon_oriented_elements. Qed.
+Print Assumptions C15_elements_polygon.
+
+Theorem C15_elements_multipolygon : forall a o0 o1 o2,
+  la_offs a = [o0; o1; o2] -> wf_listarr a = true ->
+  forall i, Forall2 same_or_rev (elem_rings (multipolygon_oriented a) i) (elem_rings a i).
+Proof. exact OrientArrayProofs.multipolygon_oriented_elements. Qed.
+Print Assumptions C15_elements_multipolygon.
 
 (* ---- orientation: the rings treated as shells are exactly the first rings of the
         polygons ... ---- *)
@@ -127,9 +142,37 @@ Theorem C15_area_valid : forall shell' holes' shell holes,
 Proof. exact OrientArrayProofs.oriented_polygon_area. Qed.
 Print Assumptions C15_area_valid.
 
+(* ---- intersections ---- *)
+
+(* reversing a ring negates its winding contribution at every point ... *)
+Theorem C15_wn_rev : forall x y ps, wn_pts x y (rev ps) = (- wn_pts x y ps)%Z.
+Proof. exact OrientWindingProofs.wn_rev. Qed.
+Print Assumptions C15_wn_rev.
+
+(* ... so when every ring of a polygon is reversed (what oriented() does to a polygon
+   whose shell is clockwise and whose holes are counter-clockwise; none is reversed
+   when it is already oriented) point_intersects_polygon answers the same everywhere.
+   partial: that oriented() reverses all-or-none of the non-zero-area rings of an
+   opposite-wound polygon, and the box kernels, are validated by the run, not proved. *)
+Theorem C15_intersections_unchanged_partial : forall x y v0 v1 offs,
+  map zpairs (rings_of v1 offs) = map (@rev (Z * Z)) (map zpairs (rings_of v0 offs)) ->
+  point_intersects_polygon x y v1 offs = point_intersects_polygon x y v0 offs.
+Proof. exact OrientWindingProofs.intersects_unchanged_all_reversed. Qed.
+Print Assumptions C15_intersections_unchanged_partial.
+
+(* for a hole wound the same way as its shell the statement is false (known finding
+   oriented-changes-intersects:same-wound-hole) *)
+Theorem C15_intersections_same_wound_refuted :
+  exists vals po ro x y v0 v1,
+    finite_vals vals = Some v0 /\
+    finite_vals (orient_polygons vals po ro) = Some v1 /\
+    point_intersects_polygon x y v0 ro = true /\
+    point_intersects_polygon x y v1 ro = false.
+Proof. exact OrientWindingProofs.intersections_same_wound_refuted. Qed.
+Print Assumptions C15_intersections_same_wound_refuted.
+
 (* ---- non-vacuity ---- *)
-Definition ex_cw_square : list num := flatz [(0,0); (0,2); (2,2); (2,0); (0,0)]%Z.
-Example ex_flip : orient_polygons ex_cw_square [0; 1] [0; 10]
+Example ex_flip : orient_polygons (flatz [(0,0); (0,2); (2,2); (2,0); (0,0)]%Z) [0; 1] [0; 10]
                   = flatz [(0,0); (2,0); (2,2); (0,2); (0,0)]%Z.
 Proof. vm_compute. reflexivity. Qed.
 Example ex_d6 : (* the zero-area hole of the repaired defect is not flipped *)
